@@ -218,7 +218,9 @@ def run_job(sess, job):
         cmd = ['cbmc', os.path.join(d, cur), '--no-malloc-may-fail', '--no-standard-checks', '--json-ui', '--verbosity', '6']
         if not (job.enforce or job.replace or job.loop_contracts): cmd += ['--function', 'harness']
         if job.unwindset and not job.loop_contracts: cmd += ['--unwindset', ','.join(job.unwindset), '--unwinding-assertions']
-        if getattr(job, 'default_unwind', None): cmd += ['--unwind', str(job.default_unwind)]   # loops not named in the unwindset (new loops in changed code): bounded too, assertion on
+        if getattr(job, 'default_unwind', None):
+            cmd += ['--unwind', str(job.default_unwind)]
+            if '--unwinding-assertions' not in cmd: cmd += ['--unwinding-assertions']   # loops not named in the unwindset (new loops in changed code): bounded too, assertion on
         if job.object_bits: cmd += ['--object-bits', str(job.object_bits)]
         if job.backend == 'z3': cmd += ['--z3']
         elif job.backend == 'cvc5': cmd += ['--cvc5']
